@@ -9,10 +9,15 @@ dst = os.path.join("/verif/seeded", sid)
 os.makedirs(dst, exist_ok=True)
 for f in ("patch.diff", "demo.rs", "demo.md"):
     shutil.copy(os.path.join(src, f), os.path.join(dst, f))
+if os.path.exists(os.path.join(src, "patch.orig.diff")):
+    shutil.copy(os.path.join(src, "patch.orig.diff"), os.path.join(dst, "patch.orig.diff"))
 m = json.load(open(os.path.join(src, "meta.json")))
 m["author"] = "fresh sub-agent given only the property text and a scratch worktree of /repo"
-m["confirmed_by_lead"] = ("tools/seed_confirm.sh in a scratch worktree: demo passes on the unchanged checkout, "
-                          "patch applies and builds, the crate's existing tests pass, demo fails with the patch")
+m["confirmed_by_lead"] = ("in scratch worktrees of /repo: tools/seed_autoconfirm.py (demo passes on the unchanged checkout, "
+                          "patch applies and builds, demo fails with the patch) and tools/seed_suite.sh (the pinned test suite, "
+                          "217 tests, passes with the patch applied)")
+if os.path.exists(os.path.join(src, "patch.orig.diff")):
+    m["rebased"] = "patch.diff re-expressed against the current /repo HEAD (hook/fix commits moved its context); the author's original is patch.orig.diff"
 m["check_run"] = "tools/seed_run.sh %s %s (patch applied in a scratch worktree via VERIF_REPO; /repo untouched)" % (src, m["property"])
 m["caught"] = caught
 m["caught_how"] = note
